@@ -117,6 +117,19 @@ def srcloc(repo):
             for k in n.keywords:
                 if k.arg in ("is_synthetic", "is_disjoint_from_parent") and ast.unparse(k.value) != k.arg:
                     res.add(f"srcloc|kw|{k.arg}", f"from_str passes {ast.unparse(k.value)} as {k.arg}", PTYPES, n.lineno, "from_str")
+    # every location built by from_str carries every flag it parsed
+    flags = [f for f, _, _, _ in stripped if f]
+    for n in walk_no_nested_funcs(p.node):
+        if isinstance(n, ast.Return) and isinstance(n.value, ast.Call) and call_name(n.value) in ("SourceLocation", "cls"):
+            res.instances += 1
+            have_kw = {k.arg for k in n.value.keywords}
+            if len(n.value.args) >= 4 or any(k.arg is None for k in n.value.keywords):
+                continue
+            for f in flags:
+                if f not in have_kw:
+                    res.add(f"srcloc|dropped|{f}", f"from_str returns `{ast.unparse(n.value)[:60]}` without {f}: the flag was parsed "
+                            "from the text but is lost, so __str__ of the result differs from the input (the flags are "
+                            "independent of the coordinates: synthesized nodes carry 0:0-0:0*)", PTYPES, n.lineno, "from_str")
     # start-end separator and position form
     ssrc, psrc = m.seg(s.node), m.seg(p.node)
     if '{self.start}-{self.end}' not in ssrc or 'split("-")' not in psrc:
